@@ -363,7 +363,7 @@ theorem process_one (law : Law) (st : State) (g : Spec.GState) (L : List Int) (f
   · simp only [f5, procInit]; exact getLastD_one L hL _
   · simp only [f4, procInit]
 
-/-! ### `twoPass` on samples of the form `L.map f` -/
+/-! ### `twoPassR` on samples of the form `L.map f` -/
 
 def dropBase (reps : List Int) (L : List Int) : List Int :=
   match (((findTurns (reps ++ reps)).map (·.1)).filter (· < reps.length)).getLast? with
@@ -398,21 +398,21 @@ def flushBase (reps : List Int) : Bool :=
 
 theorem adjustFirstRun_map (f : Int → Vec) (L : List Int) (hL : L ≠ []) (n : Nat)
     (hn : ∀ x, (f x).length = n) (h0 : f 0 = List.replicate n 0) :
-    adjustFirstRun (L.map f) = ((0 :: L).map f, flushBase ((0 :: L).map fun x => rep (f x))) := by
+    adjustFirstRunR (L.map f) = ((0 :: L).map f, flushBase ((0 :: L).map fun x => rep (f x))) := by
   cases L with
   | nil => exact absurd rfl hL
   | cons a L =>
-    unfold adjustFirstRun flushBase
+    unfold adjustFirstRunR flushBase
     simp only [List.map_cons, List.headD_cons, hn, ← h0, List.map_map, Function.comp_def, List.length_cons,
       List.length_map]
 
 theorem twoPass_eq (law : Law) (f : Int → Vec) (L : List Int) (hL : L ≠ []) (n : Nat)
     (hn : ∀ x, (f x).length = n) (h0 : f 0 = List.replicate n 0) :
-    twoPass law (L.map f) =
+    twoPassR law (L.map f) =
       process law (process law {} ((0 :: dropBase (L.map fun x => rep (f x)) L).map f)
         (flushBase ((0 :: dropBase (L.map fun x => rep (f x)) L).map fun x => rep (f x))))
         ((dropBase (L.map fun x => rep (f x)) L).map f) true := by
-  unfold twoPass
+  unfold twoPassR
   simp only [dropTrailing_map]
   rw [adjustFirstRun_map f _ (dropBase_ne _ _ hL) n hn h0]
 
@@ -420,9 +420,9 @@ theorem relP_init : RelP {} (0 : Int) {} :=
   ⟨⟨rfl, rfl, rfl, Nat.le_refl 1, rfl, rfl, rfl, rfl⟩, rfl, rfl⟩
 
 theorem twoPass_one (law : Law) (s : List Int) : ∃ ls1 ls2 : List Int,
-    RelP (twoPass law (s.map fun x => [x])) (twoPass law (s.map fun x => [x])).prevLoad
+    RelP (twoPassR law (s.map fun x => [x])) (twoPassR law (s.map fun x => [x])).prevLoad
       (Spec.guideline law ls1 ls2) ∧
-    (twoPass law (s.map fun x => [x])).fed =
+    (twoPassR law (s.map fun x => [x])).fed =
       ls1.map (fun x => (1, [x])) ++ ls2.map (fun x => (2, [x])) := by
   by_cases hs : s = []
   · subst hs
@@ -965,8 +965,8 @@ theorem process_sim (L : List Int) (flush : Bool) (a b : State) (h : PSim law cs
       rw [List.getLastD_eq_getLast?, List.getLast?_map, List.getLast?_eq_some_getLast hL]; rfl
 
 theorem twoPass_sim (L : List Int) :
-    (twoPass law (L.map (fA cs))).recs.map (proj' k) =
-      (twoPass law (L.map (fB (cs.getD k 1)))).recs.map (proj' 0) := by
+    (twoPassR law (L.map (fA cs))).recs.map (proj' k) =
+      (twoPassR law (L.map (fB (cs.getD k 1)))).recs.map (proj' 0) := by
   have hn : 0 < cs.length := by omega
   have hc0 := rep_pos cs hc hn
   have hck := getD_pos cs hc k hk
